@@ -282,30 +282,43 @@ def run(ctx):
     # procedure that stores the accepted values) is part of the cascade itself and is interpreted with it in R9
     bare = {id(st.value) for st in walk_stmts(casc.body) if isinstance(st, ast.Expr) and isinstance(st.value, ast.Call)}
     helpers = [g for cs in casc.calls for g in cs.callees if cs.cls is None and g is not pred and id(cs.node) not in bare]
+    # decided by evaluation: every helper that returns a vector of factors for the coefficient rows is interpreted on
+    # a basis of one shell, for every shell type; the vector must have one entry per function of that shell (a list of
+    # another length trips the helper's own size check or mis-aligns the rows)
+    import numpy as np
+
+    from ..accessors import AccessorEval, Raised, Rec
+    from ..symarr import NotSymbolic
+
+    shell_cls = prog.cls("iodata.basis.Shell")
+    basis_cls = prog.cls("iodata.basis.MolecularBasis")
     nf = 0
-    for h in helpers:
-        for st in walk_stmts(h.body):
-            if isinstance(st, ast.If) and isinstance(st.test, ast.Compare) and isinstance(st.test.left, ast.Name) and isinstance(st.test.comparators[0], ast.Constant) and isinstance(st.test.comparators[0].value, int) and isinstance(st.test.ops[0], ast.Eq):
-                l = st.test.comparators[0].value
-                for s2 in st.body:
-                    if isinstance(s2, ast.Assign) and isinstance(s2.value, ast.Call) and s2.value.args:
-                        n = static_len(s2.value.args[0])
-                        if n is None:
-                            continue
-                        nf += 1
-                        # enclosing kind test
-                        cur, kind = st, None
-                        pmh = prog.parents(h)
-                        while id(cur) in pmh:
-                            par = pmh[id(cur)]
-                            if isinstance(par, ast.If) and isinstance(par.test, ast.Compare) and isinstance(par.test.comparators[0], ast.Constant) and par.test.comparators[0].value in ("c", "p"):
-                                kind = par.test.comparators[0].value
-                            cur = par
-                        want = (l + 1) * (l + 2) // 2 if kind != "p" else 2 * l + 1
-                        if n == want:
-                            ctx.ok("R5", f"{h.name}: l={l} factors have {n} entries", f"{h.module.relpath}:{s2.lineno}")
-                        else:
-                            ctx.violate("R5", f"{h.name}: factor list for l={l} ({kind or 'c'}) has {n} entries, the shell has {want} functions", h, s2)
+    for h in {g.qualname: g for g in helpers}.values():
+        if "coeffs" not in h.name or len(h.posparams) != 1:
+            continue
+        for l in range(0, 6):
+            for kind in ("c", "p"):
+                if kind == "p" and l < 2:
+                    continue
+                want = (l + 1) * (l + 2) // 2 if kind == "c" else 2 * l + 1
+                sh_ = Rec(shell_cls, icenter=0, angmoms=np.array([l]), kinds=[kind], exponents=np.array([1.0]), coeffs=np.array([[1.0]]))
+                ev = AccessorEval(prog, shell_cls, limit=4000)
+                ev.module = h.module
+                try:
+                    out = ev.run_free(h, [Rec(basis_cls, shells=[sh_], conventions={}, primitive_normalization="L2")], {})
+                except Raised as exc:
+                    ctx.violate("R5", f"{h.name}: for a shell with l={l} ({kind}, {want} functions) the helper raises {exc.args[0]}: its factor list does not have one entry per function", h, h.node, construct=f"{h.name}: factor list l={l}{kind}")
+                    continue
+                except NotSymbolic as exc:
+                    raise AnalysisError(f"{h.qualname} is outside the evaluation whitelist: {exc}") from exc
+                nf += 1
+                if out is None:
+                    continue
+                n = int(np.asarray(out).size)
+                if n == want:
+                    ctx.ok("R5", f"{h.name}: l={l} ({kind}) factors have {n} entries", f"{h.module.relpath}:{h.lineno}", sample=(l == 2))
+                else:
+                    ctx.violate("R5", f"{h.name}: factor list for l={l} ({kind}) has {n} entries, the shell has {want} functions", h, h.node, construct=f"{h.name}: factor list l={l}{kind}")
     ctx.floor("R5", nf, 6, "factor lists")
 
     # ------------------------------------------------------------------ R6
